@@ -15,6 +15,7 @@ package scheduler_util
 //@   loop 1
 //@     invariant 0 - 1 <= rangeindex && rangeindex < len(node.Status.Conditions)
 //@     invariant (len(reasons) == 0) == (!node.Spec.Unschedulable && condsOK(node, rangeindex + 1))
+//@     invariant forall p *string :: old(allocated(p)) ==> *p == old(*p)
 //@     decreases len(node.Status.Conditions) - rangeindex
 //@   ensures [nilNode] node == nil ==> !result0 && result2 != nil
 //@   ensures [fitIffConditions] node != nil ==> result0 == nodeFit(node)
